@@ -95,6 +95,18 @@ func (c *trCtx) expr(e ast.Expr) string {
 		if x.Op == token.SUB && !c.unsigned {
 			return "(- " + c.expr(x.X) + ")"
 		}
+		if x.Op == token.NOT {
+			if id, ok := x.X.(*ast.Ident); ok {
+				// a flag computed elsewhere (the "ok" of a map lookup): a boolean input of the expression
+				nm := coqName(id.Name)
+				if _, seen := c.ptype[nm]; !seen {
+					c.params = append(c.params, nm)
+					c.ptype[nm] = "bool"
+				}
+				return "(negb " + nm + ")"
+			}
+			return "(negb " + c.expr(x.X) + ")"
+		}
 		return c.fail("unary %s", x.Op)
 	case *ast.BinaryExpr:
 		a, b2 := c.expr(x.X), c.expr(x.Y)
@@ -469,6 +481,49 @@ func trAssigned(rel, recv, fn, lhs, defName string, known map[string]bool) trDef
 	return trDef{name: defName, text: fmt.Sprintf("(* %s: %s := %s *)\n", fn, lhs, norm(src(rhs))) + emit(defName, c, txt, "Z")}
 }
 
+// trPicked: an expression picked out of a method body, as a function of its free variables
+func trPicked(rel, recv, fn, defName, res string, unsigned bool, pick func(*ast.FuncDecl) ast.Expr, known map[string]bool) trDef {
+	fd := findFunc(rel, recv, fn)
+	if fd == nil {
+		return trDef{name: defName, why: rel + ": " + fn + " not found"}
+	}
+	e := pick(fd)
+	if e == nil {
+		return trDef{name: defName, why: fn + ": the expression was not found"}
+	}
+	c := &trCtx{ptype: map[string]string{}, locals: map[string]bool{}, known: known, unsigned: unsigned}
+	txt := c.expr(e)
+	if c.err != "" {
+		return trDef{name: defName, why: c.err}
+	}
+	num := map[bool]string{true: "N", false: "Z"}[unsigned]
+	return trDef{name: defName, text: fmt.Sprintf("(* %s: %s *)\n", fn, norm(src(e))) + emitTyped(defName, c, txt, num, res)}
+}
+
+// lastReturnSliceHigh: the upper bound k of `return xs[:k], ...` (last return of the function)
+func lastReturnSliceHigh(fd *ast.FuncDecl) ast.Expr {
+	var out ast.Expr
+	ast.Inspect(fd.Body, func(x ast.Node) bool {
+		if r, ok := x.(*ast.ReturnStmt); ok && len(r.Results) >= 1 {
+			if sl, ok := r.Results[0].(*ast.SliceExpr); ok && sl.Low == nil && sl.High != nil {
+				out = sl.High
+			}
+		}
+		return true
+	})
+	return out
+}
+
+// firstIfCond: the condition of the first if statement of the function
+func firstIfCond(fd *ast.FuncDecl) ast.Expr {
+	for _, st := range fd.Body.List {
+		if s, ok := st.(*ast.IfStmt); ok {
+			return s.Cond
+		}
+	}
+	return nil
+}
+
 // trReturned: the expression a one-statement method returns, as a function of its free variables (uint64: N with wrap)
 func trReturned(rel, recv, fn, defName string, known map[string]bool) trDef {
 	fd := findFunc(rel, recv, fn)
@@ -528,6 +583,9 @@ func writeTranslated(factsOut string) {
 	defs = append(defs, trMethod("index/metadata.go", "Metadata", "Validate", "go_Metadata_Validate", true, known))
 	defs = append(defs, trMethod("index/metadata.go", "Metadata", "bytesSize", "go_Metadata_bytesSize", true, known))
 	defs = append(defs, trReturned("index/hnsw_vertex.go", "hnswVertex", "bytesSize", "go_vertex_bytesSize", known))
+	defs = append(defs, trPicked("storage/dataset.go", "Dataset", "Search", "go_Search_cut", "Z", false, lastReturnSliceHigh, known))
+	defs = append(defs, trPicked("storage/dataset.go", "Dataset", "SearchPartitions", "go_SearchPartitions_cut", "Z", false, lastReturnSliceHigh, known))
+	defs = append(defs, trPicked("storage/dataset_manager.go", "DatasetManager", "Create", "go_Create_refuses", "bool", false, firstIfCond, known))
 	var sb strings.Builder
 	sb.WriteString("(* GENERATED by tools/factx (translate.go) from the expression trees of the Go sources - do not edit. *)\n")
 	sb.WriteString("From Coq Require Import List ZArith NArith Bool.\nImport ListNotations.\n")
